@@ -320,6 +320,7 @@ package influxql
 //@   modifies @ast
 //@   ensures fresh(result0)
 //@   ensures result1 == nil && len(a) >= 1 ==> len(result0) >= 1
+//@   ensures [C19] @allsources result1 == nil ==> local(rangeindex) + 1 >= len(a)
 //@   loop 1 invariant -1 <= rangeindex && rangeindex < len(a) && (rangeindex >= 0 ==> len(ep) >= 1) && len(ep) >= 0 && fresh(ep)
 //@   loop 1 step istype(a[rangeindex], *Measurement) ==> len(ep) == old(len(ep)) + 1 && ep[len(ep)-1].Name == a[rangeindex].(*Measurement).Database && ep[len(ep)-1].Privilege == ReadPrivilege && !ep[len(ep)-1].Admin
 //@   loop 1 step istype(a[rangeindex], *SubQuery) ==> len(ep) == old(len(ep)) + len(privs) && forall(k, 0, len(privs), ep[old(len(ep))+k].Name == privs[k].Name && ep[old(len(ep))+k].Privilege == privs[k].Privilege && ep[old(len(ep))+k].Admin == privs[k].Admin)
@@ -342,6 +343,7 @@ package influxql
 //@   safety C19 C13
 //@   requires e != nil
 //@   ensures result1 == nil && len(e.Statement.Sources) >= 1 ==> len(result0) >= 1
+//@   ensures [C19] @into result1 == nil && e.Statement.Target != nil ==> len(result0) >= 1 && result0[len(result0)-1].Name == e.Statement.Target.Measurement.Database && result0[len(result0)-1].Privilege == WritePrivilege && !result0[len(result0)-1].Admin
 
 //@ func (*CreateContinuousQueryStatement).RequiredPrivileges
 //@   props C19
